@@ -30,6 +30,13 @@ var dirSwaps = map[string]map[string][2]string{
 	"lib/atomicfile":    {"runtime": {"runtime", modPath + "/zz_verif/simruntime"}},
 	"cmdline/remotecmd": {"net": {"net", modPath + "/zz_verif/simnet"}},
 	"lib/audit":         {"github.com/streadway/amqp": {"amqp", modPath + "/zz_verif/simamqp"}},
+	// the worker child process: os/exec, the descriptors handed to the child, kill(2) and the listening socket
+	"token/worker": {
+		"os/exec": {"exec", modPath + "/zz_verif/simexec"},
+		"syscall": {"syscall", modPath + "/zz_verif/simsyscall"},
+		"net":     {"net", modPath + "/zz_verif/simnet"},
+		modPath + "/internal/activation/activatecmd": {"activatecmd", modPath + "/zz_verif/simactivate"},
+	},
 }
 
 // directories whose condition-less loops get a LoopTick
@@ -88,6 +95,67 @@ func rewriteFile(rel string, src []byte) ([]byte, bool, error) {
 				edits = append(edits, edit{pos.Offset + 1, 0, fmt.Sprintf(" zzsimhook.LoopTick(%q);", fmt.Sprintf("%s:%d", rel, pos.Line))})
 				n++
 			}
+			return true
+		})
+		// select statements whose cases are all receives: Go chooses at random
+		// among the cases that are ready, a choice no seed reaches.  The channel
+		// operands are evaluated into temporaries (once, in source order, as the
+		// select itself would), the simulator is asked which of the cases that
+		// are ready right now may fire, and the others see a nil channel for
+		// this execution of the select.  With no simulator (or a free-running
+		// one) every operand is passed through unchanged.
+		labeled := map[*ast.SelectStmt]bool{}
+		ast.Inspect(f, func(nd ast.Node) bool {
+			if ls, ok := nd.(*ast.LabeledStmt); ok {
+				if ss, ok := ls.Stmt.(*ast.SelectStmt); ok {
+					labeled[ss] = true
+				}
+			}
+			return true
+		})
+		ast.Inspect(f, func(nd ast.Node) bool {
+			ss, ok := nd.(*ast.SelectStmt)
+			if !ok || labeled[ss] || len(ss.Body.List) < 2 {
+				return true
+			}
+			var chans []ast.Expr
+			for _, c := range ss.Body.List {
+				cc := c.(*ast.CommClause)
+				var x ast.Expr
+				switch st := cc.Comm.(type) {
+				case *ast.ExprStmt:
+					x = st.X
+				case *ast.AssignStmt:
+					if len(st.Rhs) == 1 {
+						x = st.Rhs[0]
+					}
+				}
+				for {
+					if pe, ok := x.(*ast.ParenExpr); ok {
+						x = pe.X
+						continue
+					}
+					break
+				}
+				ue, ok := x.(*ast.UnaryExpr)
+				if !ok || ue.Op != token.ARROW {
+					return true // default clause or a send: leave the statement alone
+				}
+				chans = append(chans, ue.X)
+			}
+			pos := fset.Position(ss.Pos())
+			id := fmt.Sprintf("%d_%d", pos.Line, pos.Column)
+			var names, exprs []string
+			for i, x := range chans {
+				a, b := fset.Position(x.Pos()).Offset, fset.Position(x.End()).Offset
+				nm := fmt.Sprintf("zzc%s_%d", id, i)
+				names = append(names, nm)
+				exprs = append(exprs, string(src[a:b]))
+				edits = append(edits, edit{a, b - a, fmt.Sprintf("zzsimhook.SelCh(zzk%s, %d, %s)", id, i, nm)})
+			}
+			edits = append(edits, edit{pos.Offset, 0, fmt.Sprintf("var %s = %s; zzk%s := zzsimhook.SelBegin(%q, %s); ",
+				strings.Join(names, ", "), strings.Join(exprs, ", "), id, fmt.Sprintf("%s:%d", rel, pos.Line), strings.Join(names, ", "))})
+			n++
 			return true
 		})
 		if n > 0 {
